@@ -56,6 +56,29 @@ type lWorld struct {
 	failures   []FailureEvent
 	starts     int
 	dlqNackAll bool // every DLQ plugin rejects what it is given (DLQ write failure)
+	statusCh   chan pipeline.Status // every status write, in order (buffered)
+	// failStatusWrites: how many upcoming writes of failStatus are refused by
+	// the store (the in-memory status changes, as in the real pipeline service)
+	failStatus       pipeline.Status
+	failStatusWrites int
+}
+
+// awaitStatus blocks until the n-th write of status st has happened.
+func (w *lWorld) awaitStatus(st pipeline.Status, n int) {
+	for {
+		w.mu.Lock()
+		c := 0
+		for _, x := range w.statuses {
+			if x == st {
+				c++
+			}
+		}
+		w.mu.Unlock()
+		if c >= n {
+			return
+		}
+		<-w.statusCh
+	}
 }
 
 // ---- database ----
@@ -128,6 +151,7 @@ type lSrcPlugin struct {
 	recvFail  bool // the next Recv after the records reports a stream failure (transient error)
 	runs      int
 	openCh    chan struct{} // one token per Open call
+	failNow   chan struct{} // a token makes the idle stream report a (transient) failure
 	lastRun   int           // index of the last record emitted since the last Open (-1: none)
 }
 
@@ -218,8 +242,12 @@ func (s *lSrcStream) Recv() (pconnector.SourceRunResponse, error) {
 	if fail {
 		return pconnector.SourceRunResponse{}, cerrors.New("verif: source stream broke")
 	}
-	<-ctx.Done()
-	return pconnector.SourceRunResponse{}, ctx.Err()
+	select {
+	case <-ctx.Done():
+		return pconnector.SourceRunResponse{}, ctx.Err()
+	case <-p.failNow:
+		return pconnector.SourceRunResponse{}, cerrors.New("verif: source stream broke (injected)")
+	}
 }
 
 // Send receives the acknowledgments: C01/C02/C04 at the plugin boundary.
@@ -462,11 +490,23 @@ func (s lPipelineService) List(context.Context) map[string]*pipeline.Instance {
 }
 func (s lPipelineService) UpdateStatus(_ context.Context, id string, st pipeline.Status, msg string) error {
 	s.w.mu.Lock()
-	s.w.statuses = append(s.w.statuses, st)
-	s.w.statusMsg = append(s.w.statusMsg, msg)
+	refuse := s.w.failStatusWrites > 0 && st == s.w.failStatus
+	if refuse {
+		s.w.failStatusWrites--
+	} else {
+		s.w.statuses = append(s.w.statuses, st)
+		s.w.statusMsg = append(s.w.statusMsg, msg)
+	}
 	s.w.mu.Unlock()
 	s.w.pl.SetStatus(st)
 	s.w.pl.Error = msg
+	if refuse {
+		return cerrors.New("verif: pipeline status not stored")
+	}
+	select {
+	case s.w.statusCh <- st:
+	default:
+	}
 	return nil
 }
 
@@ -481,8 +521,8 @@ type lCfg struct {
 }
 
 func newLifecycleWorld(c lCfg) (*lWorld, *Service) {
-	w := &lWorld{K: c.K, dests: map[string]*lDestPlugin{}, stored: map[string][]byte{}, conns: map[string]*connector.Instance{}}
-	w.src = &lSrcPlugin{w: w, stopAfter: c.stopAfter, served: make(chan struct{}), openCh: make(chan struct{}, 16)}
+	w := &lWorld{K: c.K, dests: map[string]*lDestPlugin{}, stored: map[string][]byte{}, conns: map[string]*connector.Instance{}, statusCh: make(chan pipeline.Status, 256)}
+	w.src = &lSrcPlugin{w: w, stopAfter: c.stopAfter, served: make(chan struct{}), openCh: make(chan struct{}, 16), failNow: make(chan struct{}, 4)}
 	if c.stopAfter == 0 {
 		close(w.src.served)
 		w.src.served = nil
